@@ -75,9 +75,15 @@ package ethereum
 //@ assume func VerfiyERC20Lock
 //@   modifies nothing
 
-//@ assume func GetToken
+// VERIFIED: the token returned is one whose contract address is the one asked for, and "not supported" is answered only when
+// no listed token has that address (an ERC20 lock/redeem is priced and minted by the token this lookup returns).
+//@ func GetToken
 //@   modifies nothing
 //@   ensures result0 != nil && fresh(result0)
+//@   ensures err == nil ==> result0.TokAddr == tokAddr                                                        // C15.token-lookup
+//@   ensures err != nil ==> forall i int :: 0 <= i && i < len(erc20list) ==> erc20list[i].TokAddr != tokAddr   // C15.token-lookup
+//@   invariant loop1: 0 <= $i && $i <= len(erc20list)                                                        // C15.token-lookup
+//@   invariant loop1: forall j int :: 0 <= j && j < $i ==> erc20list[j].TokAddr != tokAddr                   // C15.token-lookup
 
 // verified for crash-freedom (the nil To() of a contract-creation transaction is rejected since 4cb215b)
 //@ func ParseErc20Lock
